@@ -1,6 +1,7 @@
 """C12 — running an accepted program never crashes the interpreter. ASan+UBSan build of the in-process harness over every
 generator, an arithmetic edge matrix, runtime errors injected while objects are alive, deep hierarchies and overloaded virtuals."""
 import json
+import os
 
 import classgen
 import evallib
@@ -293,18 +294,63 @@ def run(chk):
             chk.violation("corpus program: " + why, {"match_key": known_src[src], "source": src, "kind": "program"})
         elif why and bad is None:
             bad = (src, kind, why)
+    # the whole tool, many shots: what is printed after the last shot (the tracked tables, sorted and aligned) is part of executing the
+    # program; tracked variables whose outcome differs from shot to shot — measured in some shots, '?' in others, registers likewise —
+    # must end in a summary and status 0, never in a raw exception text
+    import shutil as _sh, tempfile as _tf
+    import buildlib as _bl
+    import c17 as _c17
+    exe = _bl.build_cli()
+    work = _tf.mkdtemp(prefix="c12_", dir=_bl.BUILD)
+    cli_runs = 0
+    bad_args = None
+    try:
+        MIX = ["qubit c; h(c); bit b = measure c; { @tracked qubit t; if (b == 1b) { measure t; } }",
+               "qubit c; h(c); bit b = measure c; { @tracked qubit t; if (b == 1b) { x(t); measure t; } else { h(t); } }",
+               "qubit c; h(c); bit b = measure c; { @tracked qubit[2] r; if (b == 1b) { measure r; } else { measure r[0]; } }",
+               "qubit c; h(c); bit b = measure c; { @tracked qubit t; @tracked qubit u; if (b == 0b) { measure t; } else { x(u); measure u; } }",
+               "qubit c; h(c); bit b = measure c; { TQ o = new TQ(); if (b == 1b) { measure o.q; } }"]
+        for body in MIX:
+            for shots in ((16, 64) if chk.thorough else (24,)):
+                src = "class TQ { @tracked public qubit q; public constructor() -> TQ = default; }\nfunction main() -> void { %s }" % body
+                rc, out, err, _q = _c17.run_cli(exe, work, src, ["--shots=%d" % shots])
+                cli_runs += 1
+                chk.count(("cli-mixed-outcomes", body, shots))
+                why = None
+                if rc != 0:
+                    why = "a %d-shot run of an accepted program exits with %d: %s" % (shots, rc, (err + out)[-200:].strip())
+                elif "Shots: %d" % shots not in out:
+                    why = "a %d-shot run prints no summary" % shots
+                elif any(t in out + err for t in ("stoi", "std::", "terminate called", "what():", "vector::", "basic_string")):
+                    why = "a raw C++ exception text surfaces in the output of a %d-shot run" % shots
+                if why and bad is None:
+                    bad = (src, "cli-mixed-outcomes", why)
+                    bad_args = ["--shots=%d" % shots]
+    finally:
+        _sh.rmtree(work, ignore_errors=True)
+    kinds["cli-mixed-outcomes"] = cli_runs
     chk.extra["input_distribution"] = kinds
     chk.extra["outcomes"] = outcomes
     chk.extra["harness_incident"] = str(incident)[:1500] if incident else ""
     chk.sample({"kind": progs[-1][1], "program": progs[-1][0][:300]})
     if bad:
         src, kind, why = bad
-        chk.violation("%s program: %s%s" % (kind, why, ("\n" + str(incident[1])[-900:]) if incident else ""),
-                      {"source": src, "kind": "program", "sanitizer": str(incident)[-3000:] if incident else ""})
+        chk.violation("%s program: %s%s" % (kind, why, ("\n" + str(incident[1])[-900:]) if (incident and kind != "cli-mixed-outcomes") else ""),
+                      {"source": src, "kind": "program", "sanitizer": str(incident)[-3000:] if (incident and kind != "cli-mixed-outcomes") else "",
+                       **({"cli_args": bad_args} if kind == "cli-mixed-outcomes" and bad_args else {})})
 
 
 def replay(path):
     obj = json.load(open(path))
+    if obj.get("cli_args"):
+        import c17
+        obj2 = dict(obj, args=obj["cli_args"])
+        tmp = path + ".cli"
+        json.dump(obj2, open(tmp, "w"))
+        try:
+            return c17.replay(tmp)
+        finally:
+            os.remove(tmp)
     out, inc = run_guarded(evallib.harness("asan"), ["run %s 1 -" % evallib.hx(obj["source"])])
     print(obj["source"][:1500])
     print(" ->", out[0][:300] if out else "<nothing>")
